@@ -12,6 +12,7 @@
 //      for 300 ms while tasks are pending and the loop is running).
 // No change to the repo is needed: everything is libc interposition (extern "C" + RTLD_NEXT).
 #include "vh.h"
+#include "vtime.h"
 #include <dlfcn.h>
 #include <errno.h>
 #include <pthread.h>
@@ -26,6 +27,8 @@
 #include <map>
 #include <memory>
 #include <mutex>
+#include <stdexcept>
+#include <algorithm>
 #include <thread>
 #include <tbox/event/loop.h>
 #include <tbox/base/log_output.h>
@@ -39,6 +42,21 @@ static thread_local bool tl_in_submit = false;  // this thread is inside a cross
 static thread_local uint64_t tl_rng = 0;        // per-thread PRNG for delay injection
 static std::atomic<bool> g_seq_mode{false};
 static std::atomic<bool> g_delay{false};
+
+// free-running mode: linearised history.  Every event takes a global sequence number at a point where the order
+// is unambiguous: lock_ acquired / about to be released (inside the critical section), after the eventfd
+// read()/write() returned, before/after the poll, before/after each API call, at entry/exit of each callable.
+struct TEv { uint64_t stamp; int tid; const char *kind; uint64_t a, b, c; int n; };
+static std::atomic<bool> g_trace{false};
+static std::atomic<uint64_t> g_stamp{0};
+static pthread_mutex_t *g_lock_addr = nullptr;          // the loop's lock_ (learnt through isRunning())
+static thread_local bool tl_learn = false;
+static thread_local int tl_lock_depth = 0;
+static thread_local std::vector<TEv> *tl_ev = nullptr;
+static inline void trec(const char *kind, int n = 0, uint64_t a = 0, uint64_t b = 0, uint64_t c = 0) {
+    if (!tl_ev || !g_trace.load(std::memory_order_relaxed)) return;
+    tl_ev->push_back(TEv{g_stamp.fetch_add(1), tl_idx, kind, a, b, c, n});
+}
 
 static Loop *g_loop = nullptr;
 static std::string g_engine = "epoll";
@@ -106,11 +124,13 @@ static void park_hook() {
 extern "C" int epoll_wait(int epfd, struct epoll_event *ev, int n, int timeout) {
     if (!real_epw) real_epw = (epw_t)dlsym(RTLD_NEXT, "epoll_wait");
     if (tl_runloop && g_seq_mode) { park_hook(); return real_epw(epfd, ev, n, 0); }
+    if (tl_runloop) { trec("PW"); int r = real_epw(epfd, ev, n, timeout); trec("PR"); return r; }
     return real_epw(epfd, ev, n, timeout);
 }
 extern "C" int select(int nfds, fd_set *r, fd_set *w, fd_set *e, struct timeval *tv) {
     if (!real_sel) real_sel = (sel_t)dlsym(RTLD_NEXT, "select");
     if (tl_runloop && g_seq_mode) { park_hook(); struct timeval z = {0, 0}; return real_sel(nfds, r, w, e, &z); }
+    if (tl_runloop) { trec("PW"); int rc = real_sel(nfds, r, w, e, tv); trec("PR"); return rc; }
     return real_sel(nfds, r, w, e, tv);
 }
 extern "C" int pthread_mutex_lock(pthread_mutex_t *m) {
@@ -125,10 +145,13 @@ extern "C" int pthread_mutex_lock(pthread_mutex_t *m) {
     }
     maybe_delay();
     int rc = real_lock(m);
+    if (tl_learn) g_lock_addr = m;
+    if (rc == 0 && m == g_lock_addr && tl_ev) { if (tl_lock_depth++ == 0) trec("LA"); }
     return rc;
 }
 extern "C" int pthread_mutex_unlock(pthread_mutex_t *m) {
     resolve();
+    if (m == g_lock_addr && tl_ev && m != &gm) { if (--tl_lock_depth == 0) trec("LR"); }
     int rc = real_unlock(m);
     if (m != &gm) maybe_delay();
     return rc;
@@ -137,6 +160,7 @@ extern "C" ssize_t read(int fd, void *buf, size_t n) {
     if (!real_rd) real_rd = (rd_t)dlsym(RTLD_NEXT, "read");
     if (n == 8 && tl_idx >= 0) maybe_delay();          // the eventfd
     ssize_t r = real_rd(fd, buf, n);
+    if (n == 8 && tl_ev) trec("ER", 1, (uint64_t)(r == 8));
     if (n == 8 && tl_idx >= 0) maybe_delay();
     return r;
 }
@@ -144,6 +168,7 @@ extern "C" ssize_t write(int fd, const void *buf, size_t n) {
     if (!real_wr) real_wr = (wr_t)dlsym(RTLD_NEXT, "write");
     if (n == 8 && tl_idx >= 0) maybe_delay();
     ssize_t r = real_wr(fd, buf, n);
+    if (n == 8 && tl_ev) trec("EW", 1, (uint64_t)(r == 8));
     if (n == 8 && tl_idx >= 0) maybe_delay();
     return r;
 }
@@ -230,7 +255,9 @@ static void run_body(const std::vector<Act> &body) {
             case 'n': do_submit_next(a.a); break;
             case 'c': do_cancel(a.a); break;
             case 'x': g_loop->exitLoop(); break;
+            case 't': g_loop->exitLoop(std::chrono::milliseconds(5)); break;   // exit timer (virtual clock; fires after `tick`)
             case 'w': do_cross(a.a, a.b); break;
+            case '!': throw std::runtime_error("verif: callable throws");
         }
     }
 }
@@ -247,7 +274,7 @@ static std::function<void()> make_task(uint64_t k, std::shared_ptr<uint64_t> cel
 static bool parse_act(const std::string &w, Act &a) {
     if (w.empty()) return false;
     a.kind = w[0]; a.a = a.b = 0;
-    if (a.kind == 'x') return w.size() == 1;
+    if (a.kind == 'x' || a.kind == 't' || a.kind == '!') return w.size() == 1;
     if (a.kind == 'i' || a.kind == 'n' || a.kind == 'c') return vh::to_u64(w.substr(1), a.a) && (a.kind == 'c' || a.a < 64);
     if (a.kind == 'w') {
         size_t p = w.find('.');
@@ -290,7 +317,8 @@ static void op_pass(bool stop) {
 static void op_destroy(int t) {
     post(t, [] {
         g_destroying = true;
-        delete g_loop; g_loop = nullptr;
+        try { delete g_loop; } catch (const std::exception &e) { emit("P destructor-threw"); }
+        g_loop = nullptr;
         g_destroying = false;
     });
     wait_idle(t);
@@ -308,80 +336,115 @@ static void finalize_case() {
 }
 
 // ------------------------------------------------------------------ stress mode
-struct Rec { uint32_t owner; char entry; uint32_t seq; int tid; };
 static void stress(const std::string &engine, unsigned nsub, unsigned ntasks, uint64_t seed, unsigned rounds, bool delays) {
-    const unsigned MAXREC = 4000000;
-    std::vector<Rec> rec(MAXREC);
-    std::atomic<uint32_t> nrec{0};
     std::atomic<uint64_t> submitted{0}, done{0};
     std::atomic<bool> in_runloop{false}, finished{false};
     std::atomic<uint32_t> lost{0};
-    std::vector<std::pair<char, uint32_t>> cancelled;     // loop thread only
-    uint32_t lseq_i = 0, lseq_n = 0;                       // loop-thread submissions (owner 0)
-    std::vector<uint32_t> sub_count(nsub + 1, 0);
+    uint32_t lseq_i = 0, lseq_n = 0;                       // loop-thread submissions (owner 0), loop thread only
+    const unsigned CTL = nsub + 1;
+    std::vector<uint32_t> sub_count(nsub + 2, 0);
+    std::vector<std::vector<TEv>> evs(nsub + 2);
+    for (auto &v : evs) v.reserve(16 * (size_t)ntasks + 1024);
+    vt::disable();
     Loop *loop = Loop::New(engine);
     if (!loop) { std::cout << "H error no-engine\n"; return; }
-    g_seq_mode = false; g_delay = delays;
+    g_seq_mode = false; g_delay = delays; g_stamp = 0;
+    tl_learn = true; (void)loop->isRunning(); tl_learn = false;      // learn the address of lock_
+    g_trace = true;
 
-    auto record = [&](uint32_t owner, char entry, uint32_t seq) {
-        uint32_t i = nrec.fetch_add(1);
-        if (i < MAXREC) rec[i] = Rec{owner, entry, seq, tl_idx};
-        done.fetch_add(1);
-    };
+    // callable submitted by `owner` through entry 'i' (cross-thread runInLoop), 'I' (runInLoop from the loop
+    // thread), 'n' (runNext): records its execution; some of the cross-thread ones use the API themselves or throw
+    auto leaf = [&](char e, uint32_t q) { return [&, e, q] { trec("XB", 3, 0, (uint64_t)e, q); done.fetch_add(1); trec("XE"); }; };
     std::function<void(uint32_t, uint32_t)> body = [&](uint32_t owner, uint32_t seq) {
-        record(owner, 'i', seq);
+        trec("XB", 3, owner, (uint64_t)'i', seq);
+        done.fetch_add(1);
         uint64_t r = rnd() >> 20;
         unsigned k = r % 32;
         if (k < 3) {            // nested runNext from the loop thread
-            uint32_t s = ++lseq_n; submitted.fetch_add(1);
-            loop->runNext([&, s] { record(0, 'n', s); }, "n");
+            uint32_t q = ++lseq_n; submitted.fetch_add(1);
+            trec("AN", 3, 0, (uint64_t)'n', q);
+            auto id = loop->runNext(leaf('n', q), "n");
+            trec("AS", 1, id);
         } else if (k < 5) {     // nested runInLoop from the loop thread
-            uint32_t s = ++lseq_i; submitted.fetch_add(1);
-            loop->runInLoop([&, s] { record(0, 'I', s); }, "i");
+            uint32_t q = ++lseq_i; submitted.fetch_add(1);
+            trec("AI", 3, 0, (uint64_t)'I', q);
+            auto id = loop->runInLoop(leaf('I', q), "i");
+            trec("AS", 1, id);
         } else if (k == 5) {    // submit and cancel at once: must never run
-            uint32_t s = ++lseq_n;
-            auto id = loop->runNext([&, s] { record(0, 'n', s); }, "c");
-            if (loop->cancel(id)) cancelled.push_back({'n', s}); else submitted.fetch_add(1);
+            uint32_t q = ++lseq_n;
+            trec("AN", 3, 0, (uint64_t)'n', q);
+            auto id = loop->runNext(leaf('n', q), "c");
+            trec("AS", 1, id);
+            trec("AC", 1, id);
+            bool ok = loop->cancel(id);
+            trec("AR", 1, ok);
+            if (!ok) submitted.fetch_add(1);
         } else if (k == 6) {
-            uint32_t s = ++lseq_i;
-            auto id = loop->runInLoop([&, s] { record(0, 'I', s); }, "c");
-            if (loop->cancel(id)) cancelled.push_back({'I', s}); else submitted.fetch_add(1);
+            uint32_t q = ++lseq_i;
+            trec("AI", 3, 0, (uint64_t)'I', q);
+            auto id = loop->runInLoop(leaf('I', q), "c");
+            trec("AS", 1, id);
+            trec("AC", 1, id);
+            bool ok = loop->cancel(id);
+            trec("AR", 1, ok);
+            if (!ok) submitted.fetch_add(1);
+        } else if (k == 7) {    // cancel something that already ran (or never existed)
+            uint64_t id = 2 * ((r >> 8) % 64);
+            trec("AC", 1, id);
+            bool ok = loop->cancel(id);
+            trec("AR", 1, ok);
+            if (ok) done.fetch_add(1);                                // (a cancelled pending task counts as settled)
+        } else if (k == 8) {    // the callable throws
+            trec("TH"); trec("XE");
+            throw std::runtime_error("verif: callable throws");
         }
+        trec("XE");
     };
 
     std::atomic<unsigned> round_no{0};
     std::atomic<bool> quit{false}, ctl_done{false};
     std::thread loop_thread([&] {
-        tl_idx = 0; tl_rng = seed * 77 + 1;
+        tl_idx = 0; tl_rng = seed * 77 + 1; tl_ev = &evs[0];
         while (!quit.load()) {
+            trec("AT");
             loop->exitLoop(std::chrono::milliseconds(1500));     // safety net: a lost wake-up must not hang the run
+            trec("RB", 1, 1);
             in_runloop = true;
+            tl_runloop = true;
             loop->runLoop(Loop::Mode::kForever);
+            tl_runloop = false;
             in_runloop = false;
+            trec("RE");
             round_no.fetch_add(1);
         }
         while (!ctl_done.load()) sched_yield();
         finished = true;
+        trec("DB");
         delete loop;                                             // pending tasks run here, on this thread
+        trec("DE");
+        tl_ev = nullptr;
     });
     std::vector<std::thread> subs;
     std::atomic<unsigned> active{nsub};
     for (unsigned t = 1; t <= nsub; ++t) {
         subs.emplace_back([&, t] {
-            tl_idx = (int)t; tl_rng = seed * 1000003ULL + t;
-            for (uint32_t s = 1; s <= ntasks; ++s) {
+            tl_idx = (int)t; tl_rng = seed * 1000003ULL + t; tl_ev = &evs[t];
+            for (uint32_t q = 1; q <= ntasks; ++q) {
                 submitted.fetch_add(1);
-                sub_count[t] = s;
-                loop->runInLoop([&, t, s] { body(t, s); }, "s");
+                sub_count[t] = q;
+                trec("SB", 3, t, (uint64_t)'i', q);
+                auto id = loop->runInLoop([&, t, q] { body(t, q); }, "s");
+                trec("SA", 1, id);
                 if ((rnd() >> 30) % 64 == 0) { struct timespec ts = {0, 200000}; nanosleep(&ts, nullptr); }
             }
             active.fetch_sub(1);
+            tl_ev = nullptr;
         });
     }
     // controller: ends the first rounds-1 runs while the submitters are still busy (submission during exit /
     // idle / re-run of the same loop object), the last one after everything was executed; watches for stalls.
     std::thread ctl([&] {
-        tl_idx = (int)nsub + 1; tl_rng = seed + 99;
+        tl_idx = (int)CTL; tl_rng = seed + 99; tl_ev = &evs[CTL];
         auto t_all = std::chrono::steady_clock::now();
         auto stall_watch = [&](std::function<bool()> until) {
             uint64_t last = done.load(); auto t0 = std::chrono::steady_clock::now();
@@ -396,30 +459,48 @@ static void stress(const std::string &engine, unsigned nsub, unsigned ntasks, ui
                 if (!flagged && now - t0 > std::chrono::milliseconds(300)) { lost.fetch_add(1); flagged = true; }
             }
         };
+        uint32_t cq = 0;
+        auto submit_exit = [&] {
+            uint32_t q = ++cq; sub_count[CTL] = q;
+            trec("SB", 3, CTL, (uint64_t)'i', q);
+            auto id = loop->runInLoop([&, q] {
+                trec("XB", 3, CTL, (uint64_t)'i', q); trec("AX"); loop->exitLoop(); trec("XE");
+            }, "exit");
+            trec("SA", 1, id);
+        };
         for (unsigned r = 0; r + 1 < rounds; ++r) {
             uint64_t target = (uint64_t)nsub * ntasks * (r + 1) / rounds;
             unsigned r0 = round_no.load();
             stall_watch([&] { return done.load() >= target || active.load() == 0 || round_no.load() != r0; });
-            if (round_no.load() == r0) loop->runInLoop([&] { loop->exitLoop(); }, "exit");
+            if (round_no.load() == r0) submit_exit();
             stall_watch([&] { return round_no.load() != r0; });
         }
         stall_watch([&] { return active.load() == 0 && done.load() >= submitted.load(); });
         quit = true;
-        loop->runInLoop([&] { loop->exitLoop(); }, "exit");
+        submit_exit();
         ctl_done = true;
         stall_watch([&] { return finished.load(); });
+        tl_ev = nullptr;
     });
     for (auto &t : subs) t.join();
     ctl.join();
     loop_thread.join();
-    g_delay = false;
+    g_delay = false; g_trace = false; g_lock_addr = nullptr;
 
-    uint32_t n = std::min<uint32_t>(nrec.load(), MAXREC);
-    for (unsigned t = 1; t <= nsub; ++t) std::cout << "H sub " << t << " i " << sub_count[t] << "\n";
+    std::vector<TEv> all;
+    for (auto &v : evs) all.insert(all.end(), v.begin(), v.end());
+    std::sort(all.begin(), all.end(), [](const TEv &x, const TEv &y) { return x.stamp < y.stamp; });
+    for (unsigned t = 1; t <= CTL; ++t) std::cout << "H sub " << t << " i " << sub_count[t] << "\n";
     std::cout << "H sub 0 I " << lseq_i << "\n" << "H sub 0 n " << lseq_n << "\n";
-    for (auto &c : cancelled) std::cout << "H c 0 " << c.first << " " << c.second << "\n";
-    for (uint32_t i = 0; i < n; ++i)
-        std::cout << "H x " << rec[i].owner << " " << rec[i].entry << " " << rec[i].seq << " " << rec[i].tid << "\n";
+    std::string out;
+    for (auto &e : all) {
+        out.clear();
+        out += "H e "; out += std::to_string(e.tid); out += ' '; out += e.kind;
+        if (e.n == 1) { out += ' '; out += std::to_string(e.a); }
+        if (e.n == 3) { out += ' '; out += std::to_string(e.a); out += ' '; out += (char)e.b; out += ' '; out += std::to_string(e.c); }
+        out += '\n';
+        std::cout << out;
+    }
     if (lost.load()) std::cout << "H lost " << lost.load() << "\n";
     std::cout << "H done rounds=" << rounds << "\n";
 }
@@ -431,7 +512,7 @@ int main() {
     for (int i = 0; i < NT; ++i) W[i].th = std::thread(worker_main, i);
     std::string line;
     bool in_case = false, first_op = true;
-    auto begin_case = [&] { g_seq_mode = true; new_loop(); in_case = true; first_op = true; };
+    auto begin_case = [&] { g_seq_mode = true; vt::enable(1000, 1700000000000LL); new_loop(); in_case = true; first_op = true; };
     auto end_case = [&] { if (in_case) { finalize_case(); delete g_loop; g_loop = nullptr; in_case = false; g_engine = "epoll"; } };
     while (std::getline(std::cin, line)) {
         auto w = vh::words(line);
@@ -447,7 +528,7 @@ int main() {
             if ((w[1] == "epoll" || w[1] == "select") && vh::to_u64(w[2], ns) && vh::to_u64(w[3], nt) && vh::to_u64(w[4], seed) &&
                 vh::to_u64(w[5], rounds) && vh::to_u64(w[6], dl) && ns >= 1 && ns <= 16 && nt >= 1 && nt <= 20000 && rounds >= 1 && rounds <= 8 && idle) {
                 stress(w[1], (unsigned)ns, (unsigned)nt, seed, (unsigned)rounds, dl != 0);
-                g_seq_mode = true;
+                g_seq_mode = true; vt::enable(1000, 1700000000000LL);
             } else std::cout << "bad-op\n";
             continue;
         }
@@ -465,13 +546,19 @@ int main() {
             post((int)t, [k] { do_cancel(k); }); wait_idle((int)t);
         } else if (op == "exit" && w.size() == 2 && vh::to_u64(w[1], t) && t < NT && idle) {
             post((int)t, [] { g_loop->exitLoop(); }); wait_idle((int)t); emit("P exit");
+        } else if (op == "exitt" && w.size() == 2 && vh::to_u64(w[1], t) && t < NT && idle) {
+            post((int)t, [] { g_loop->exitLoop(std::chrono::milliseconds(5)); }); wait_idle((int)t); emit("P exit");
+        } else if (op == "tick" && w.size() == 1) {
+            vt::advance_ms(10); emit("P tick");
         } else if (op == "run" && w.size() == 3 && (w[1] == "once" || w[1] == "forever") && vh::to_u64(w[2], t) && t < NT && idle) {
             bool forever = w[1] == "forever";
             uint64_t gen0; { G g; gen0 = g_park_gen; }
             g_loop_tid = (int)t;
             post((int)t, [forever] {
                 tl_runloop = true;
-                g_loop->runLoop(forever ? Loop::Mode::kForever : Loop::Mode::kOnce);
+                // like an application that guards its main loop: an exception that escapes runLoop() is reported, not fatal
+                try { g_loop->runLoop(forever ? Loop::Mode::kForever : Loop::Mode::kOnce); }
+                catch (const std::exception &e) { emit("P runLoop-threw"); }
                 tl_runloop = false;
             });
             if (wait_parked_or_exit(gen0)) emit("P running"); else finish_exit();
